@@ -183,7 +183,9 @@ func (d *Decoder) decodeNALUs(pkt *rtp.Packet) ([][]byte, error) {
 				errSize, h265.MaxAccessUnitSize)
 		}
 
-		d.fragments = append(d.fragments, pkt.Payload[3:])
+		if len(pkt.Payload[3:]) != 0 { // a fragment without data is not retained
+			d.fragments = append(d.fragments, pkt.Payload[3:])
+		}
 		d.fragmentNextSeqNum++
 
 		if end != 1 {
